@@ -121,6 +121,10 @@ pub fn valid_fasta(rng: &mut Rng, nrec: usize, crlf_mode: u8, final_term: bool, 
             if line.first() == Some(&b'>') {
                 line[0] = b'A';
             }
+            if rng.chance(1, 25) {
+                // a line whose content ends in CR (only one CR belongs to the terminator)
+                line.push(b'\r');
+            }
             f.extend(line);
             if !(i + 1 == nrec && l + 1 == nlines && !final_term) {
                 f.extend_from_slice(term(rng, crlf_mode));
@@ -461,6 +465,8 @@ pub fn generate(family: &str, size: usize, seed: u64) -> Vec<String> {
         "w_fa" => writer_cases("fa", &mut rng, if size >= 100000 { 8 } else { 6 }, size, &mut out),
         "w_fq" => writer_cases("fq", &mut rng, 0, size, &mut out),
         "par_x" => par_x(&mut rng, size, &mut out),
+        "fa_zero" => zero_read_cases("fa", &mut rng, size, &mut out),
+        "fq_zero" => zero_read_cases("fq", &mut rng, size, &mut out),
         "par_z" => par_z(&mut rng, size, &mut out),
         "iter" => iter_cases(size, &mut out),
         "fa_json" => json_cases("fa", &mut rng, size, &mut out),
@@ -773,6 +779,7 @@ pub fn recode_groups(fmt: &str, rng: &mut Rng, n_files: usize, out: &mut Vec<Str
                 fq.push((h, field_bytes(rng, l, b"ACGTN"), field_bytes(rng, l, b"IJ#!5@+>~ "), rng.chance(1, 4)));
             }
         }
+        let lead_blank = *rng.pick(&[0usize, 0, 1, 2, 3, 5]);
         for variant in 0..RECODE_GROUP {
             // 0 LF+term, 1 LF-noterm, 2 CRLF+term, 3 CRLF-noterm, 4/5 format specific
             let mut f: Vec<u8> = vec![];
@@ -797,6 +804,10 @@ pub fn recode_groups(fmt: &str, rng: &mut Rng, n_files: usize, out: &mut Vec<Str
             };
             if fmt == "fa" {
                 let n = fa.len();
+                // leading blank lines are part of the format: the same number in every encoding
+                for _ in 0..lead_blank {
+                    term(&mut f, &mut vr);
+                }
                 for (i, (h, lines)) in fa.iter().enumerate() {
                     f.push(b'>');
                     f.extend(h);
@@ -1011,5 +1022,40 @@ pub fn par_z(rng: &mut Rng, size: usize, out: &mut Vec<String>) {
         let stop = if rng.chance(1, 2) { Some(rng.range(1, nrec)) } else { None };
         let o = |x: Option<usize>| x.map(|v| v.to_string()).unwrap_or("-".to_string());
         out.push(format!("Z {} {} {} {} {} {} {} {} {}", fmt, t, q, cap, ri as u8, o(rset), o(rec), o(stop), hex_or_dash(&input)));
+    }
+}
+
+// ---------------------------------------------------------------- sources that report Ok(0) and later deliver data (C20 fusedness)
+
+pub fn zero_read_cases(fmt: &str, rng: &mut Rng, n: usize, out: &mut Vec<String>) {
+    for _ in 0..n {
+        let input = rand_input(fmt, rng, 0);
+        let mut script = vec![];
+        for _ in 0..rng.range(1, 6) {
+            if rng.chance(1, 2) {
+                script.push(ReadEv::Zero);
+            } else {
+                script.push(ReadEv::Data(rng.range(1, 20)));
+            }
+        }
+        if !script.contains(&ReadEv::Zero) {
+            script.insert(rng.below(script.len() + 1), ReadEv::Zero);
+        }
+        let mut ops = vec![];
+        for _ in 0..rng.range(4, 10) {
+            ops.push(if rng.chance(1, 4) { Op::Owned } else { Op::Next });
+        }
+        let c = Case {
+            kind: "F".to_string(),
+            fmt: fmt.to_string(),
+            cap: rand_cap(rng, input.len()),
+            pol: PolDesc::Std,
+            chunk: 0,
+            script,
+            seek_fails: vec![],
+            ops,
+            input,
+        };
+        out.push(c.show());
     }
 }
